@@ -88,7 +88,7 @@ func contractServes(c *Contract, prop string) bool {
 		}
 		return false
 	}
-	if chk(c.Ensures) || chk(c.Requires) {
+	if chk(c.Ensures) || chk(c.Requires) || chk(c.AtReturns) {
 		return true
 	}
 	for _, ls := range c.Loops {
